@@ -598,7 +598,7 @@ class C03(EngineCheck):
         base = super().strategy(tier)
         return st.one_of(base, base, base, base, base, base, base, base, outside_reader_cases(tier),
                          outside_reader_templates(tier), shared_failure_templates(tier),
-                         rec_consumer_templates(tier))
+                         rec_consumer_templates(tier), rec_consumer_templates(tier))
 
     def oracle(self, case, refres, obs):
         v = []
@@ -662,8 +662,20 @@ class C04(EngineCheck):
     floors = {'shared-across-scopes': 0.1}
 
     def strategy(self, tier):
+        kw = self.gen_kwargs(tier)
+
+        @st.composite
+        def with_managers(draw):
+            # at most once must also hold while collaborators suspend inside the engine's bookkeeping of a node
+            # (event callbacks, artifact saves): a second scope may request the node during that suspension
+            case = draw(G.cases(collab_scheds=True, **kw))
+            case['collab'] = {'ems': [{'gated': True} for _ in range(draw(st.integers(1, 2)))],
+                              'store': {'gated': True, 'write_once': False} if draw(st.booleans()) else None}
+            return _sanitize(case)
+
         base = super().strategy(tier)
-        return st.one_of(*([base] * 12), switch_in_recurrent_templates(tier), shared_failure_templates(tier))
+        return st.one_of(*([base] * 9), *([with_managers()] * 3), switch_in_recurrent_templates(tier),
+                         shared_failure_templates(tier))
 
     def oracle(self, case, refres, obs):
         v = []
@@ -720,7 +732,7 @@ class C05(EngineCheck):
             return _sanitize(case)
 
         return st.one_of(*([s()] * 12), shared_failure_templates(tier),
-                         candidate_lazy_failure_templates(tier))
+                         candidate_lazy_failure_templates(tier), nested_containment_templates(tier))
 
     def oracle(self, case, refres, obs):
         v = []
@@ -1095,6 +1107,62 @@ def candidate_lazy_failure_templates(draw, tier):
     return {'program': prog, 'variant': var, 'scheds': scheds, 'template': 'candidate-lazy-failure'}
 
 
+@st.composite
+def nested_containment_templates(draw, tier):
+    """directed shape: below the first candidate of an outer one-of sits a chain of 2-4 lazy constructs nested in each
+    other (switch whose selected case is the next level / one-of whose candidates are the next level and a failing
+    leaf); at the innermost level EVERY alternative fails. The failure must be contained level by level and the
+    outer one-of must fall back to its next candidate (or report ITS OWN no-result error when that one fails too)."""
+    def N(nid, params=(), mode='gated', **kw):
+        d = {'id': nid, 'params': [list(p) for p in params], 'mode': mode}
+        d.update(kw)
+        return d
+    ext = st.sampled_from(['gated', 'gated', 'coro', 'thread', 'inline'])
+    nodes = [N('n0', mode='coro')]
+    var = {'x': 0, 'nodes': {}}
+
+    def add(params, **kw):
+        nid = f'n{len(nodes)}'
+        nodes.append(N(nid, params, mode=draw(ext), **kw))
+        return nid
+
+    def failing_leaf():
+        nid = add([('k0', ['in', 'n0'])] if draw(st.booleans()) else [])
+        var['nodes'][nid] = {'outcomes': [], 'tail': draw(st.sampled_from(['ErrA', 'ErrB']))}
+        return nid
+
+    def level(depth):
+        """returns a node whose evaluation fails because everything below it fails"""
+        kind = draw(st.sampled_from(['sw', 'oneof']))
+        if depth == 0:
+            inner = [failing_leaf() for _ in range(draw(st.integers(1, 2)))]
+        else:
+            inner = [level(depth - 1)]
+            if draw(st.booleans()):
+                inner.insert(draw(st.integers(0, 1)), failing_leaf())
+        if kind == 'oneof' or len(inner) == 1 and draw(st.booleans()):
+            return add([('k0', ['oneof', inner])])
+        dec = add([('k0', ['in', 'n0'])])
+        other = add([('k0', ['in', 'n0'])])
+        cases = [['L0', inner[0]], ['L1', other]]
+        var['nodes'][dec] = {'label': 'L0'}
+        params = [('k0', ['sw', f'sw_{len(nodes)}' if draw(st.booleans()) else None, dec, cases])]
+        if len(inner) > 1:
+            params.append(('k1', ['oneof', inner[1:]]))
+        return add(params)
+
+    c1 = level(draw(st.integers(1, 3)))
+    c2 = add([('k0', ['in', 'n0'])] if draw(st.booleans()) else [])
+    if draw(st.integers(0, 3)) == 0:
+        var['nodes'][c2] = {'outcomes': [], 'tail': 'ErrC'}
+    out = add([('k0', ['oneof', [c1, c2]])])
+    if draw(st.booleans()):
+        out = add([('k0', ['in', out])])
+    prog = {'nodes': nodes, 'output': out}
+    scheds = [draw(G.schedules(prog)) for _ in range(3)]
+    return {'program': prog, 'variant': var, 'scheds': scheds, 'template': 'nested-containment'}
+
+
 def oracle_oneof_order(o, program, refres):
     """a candidate node's body starts only after every earlier candidate has failed (checked where the reference
     attributes the earlier candidate's failure to node bodies only)"""
@@ -1147,7 +1215,7 @@ class C10(EngineCheck):
         kw = self.gen_kwargs(tier)
         base = G.cases(**kw).map(_sanitize).filter(lambda c: S.has_kind(c['program'], 'oneof'))
         return st.one_of(base, base, base, base, base, base, base, base, base, shared_failure_templates(tier),
-                         candidate_lazy_failure_templates(tier))
+                         candidate_lazy_failure_templates(tier), nested_containment_templates(tier))
 
     def oracle(self, case, refres, obs):
         v = []
